@@ -154,11 +154,14 @@ package object
 //@ ensures[C09.released] !ghost("lock.w", bool, goTypeMutex)
 
 // newGoType reads and fills the registry: only under the lock (its callers hold it).
+// C08: a registration that fails leaves no entry for the type behind (KF-44 fixed: the half-built type stayed in
+// the registry and the next lookup returned it as complete); a successful one returns a non-nil type.
 //@ func newGoType
-//@ props C09
+//@ props C09 C08
 //@ requires[C09.lock] ghost("lock.w", bool, goTypeMutex)
 //@ modcomps H_ E_ M G_object_typeConverters G_object_goTypeRegistry
 //@ assumeframe
+//@ ensures[C08.registry.clean] err != nil ==> !haskey(goTypeRegistry, typ) && result0 == nil
 
 // Everything that touches the registries or calls the functions that need the lock must be under contract
 // (so that its lock obligations are generated): listed here.
@@ -186,6 +189,13 @@ package object
 //@ requires[C09.lock] ghost("lock.w", bool, goTypeMutex)
 //@ modcomps H_ E_ M G_object_typeConverters G_object_goTypeRegistry
 //@ assumeframe
+
+//@ func getMethods
+//@ props C09
+//@ requires[C09.lock] ghost("lock.w", bool, goTypeMutex)
+//@ modcomps H_ E_ M G_object_typeConverters G_object_goTypeRegistry
+//@ assumeframe
+//@ invariant 1: ghost("lock.w", bool, goTypeMutex)
 
 //@ func newGoMethod
 //@ props C09
